@@ -296,7 +296,7 @@ func c06Routes(c *C, s string) bool {
 	big := s
 	if r.Chance(20) {
 		big = strings.Repeat(s, 1+r.Intn(1+70000/len(s))) // larger than common buffer and chunk sizes
-		for hasOpener(big) { // a seam may have formed one
+		for hasOpener(big) {                              // a seam may have formed one
 			big = strings.NewReplacer("{{", "{ {", "{%", "{ %", "{#", "{ #").Replace(big)
 		}
 	}
@@ -345,13 +345,14 @@ func c06Routes(c *C, s string) bool {
 					tpl, err = st.set.FromCache(name)
 				}
 				var out string
+				entry := r.Intn(4)
 				if err == nil {
-					out, err = tpl.Execute(ctx)
+					out, err = c01Exec(tpl, ctx, entry)
 				}
 				c.Eval(1)
 				want := strings.Repeat(big, rt.reps)
 				if err != nil || out != want {
-					d := D{"route": rt.file, "loader": st.name, "file_bytes": len(big), "output_bytes": len(out), "error": errStr(err), "after_failed_executions": round == 1}
+					d := D{"route": rt.file, "loader": st.name, "entry_point": c14Entry[entry], "file_bytes": len(big), "output_bytes": len(out), "error": errStr(err), "after_failed_executions": round == 1}
 					if len(big) < 400 {
 						d["file"] = q(big)
 						d["output"] = q(out)
@@ -376,7 +377,7 @@ func c06Routes(c *C, s string) bool {
 					}
 					for k := 0; k < 3; k++ {
 						if tpl, err := st.set.FromFile(name); err == nil {
-							if _, xerr := tpl.Execute(ctx); xerr == nil {
+							if _, xerr := c01Exec(tpl, ctx, k+r.Intn(2)*2); xerr == nil {
 								c.Fail("identity-via-route", D{"route": bad, "why": "the failing function's error was lost"})
 								return false
 							}
@@ -401,10 +402,11 @@ func c06Routes(c *C, s string) bool {
 			return false
 		}
 		ctx["boomflag"] = true
-		tpl.Execute(ctx)
-		tpl.ExecuteBytes(ctx)
+		for w := 0; w < 4; w++ {
+			c01Exec(tpl, ctx, w)
+		}
 		ctx["boomflag"] = false
-		out, xerr := tpl.Execute(ctx)
+		out, xerr := c01Exec(tpl, ctx, r.Intn(4))
 		c.Eval(3)
 		if xerr != nil || out != big {
 			c.Fail("identity-via-route", D{"route": "/cond.tpl (the same compiled template failed twice before)", "file_bytes": len(big), "output_bytes": len(out), "output_head": q(truncStr(out, 200)), "file_head": q(truncStr(big, 200)), "error": errStr(xerr)})
